@@ -66,3 +66,49 @@ for _tag, _value, _allow, _want in (("text", "  Adults ", False, "result == 'Adu
 for _tag, _value, _allow in (("an_empty_cell_where_text_is_required", None, False), ("a_number_where_text_is_required", 5.0, False), ("a_number_where_text_or_nothing_is_allowed", 5.0, True)):
     CONTRACTS["excel:cell_get_string#%s" % _tag] = dict(schema=schema, make_env=(lambda v, a: (lambda it: dict(_cell(v, "n")(it), allow_empty=a)))(_value, _allow), call_stubs=_iss,
                                                         raises={"Exception": "True"}, raises_props=["C18"], ensures=[], defined_props=["C16", "C18"])
+
+
+# ---- the population sheet of a databook, one row read (body of the row loop of ProjectData._read_pops) and one row written (body of the loop of _write_pops): a
+# population is listed under its stripped code name with its stripped label and its population type (none when the cell is blank or the column is absent); a code
+# name or label of one character, or a reserved word as code name, is refused; the writer puts code name, label and type into the three columns the reader reads
+def _env_pop_row(values):
+    def make(it):
+        from pyvc.interp import PyObjV
+        from pyvc import source
+
+        em = source.load("excel")
+        row = [PyObjV("Cell", em, {"value": v, "data_type": ("s" if isinstance(v, str) else "n"), "coordinate": "A2"}) for v in values]
+        return {"self": PyObjV("ProjectData", source.load("data"), {"pops": {"old": {"label": "Old", "type": None}}}), "row": row}
+
+    return make
+
+
+for _tag, _vals, _want in (("with_a_population_type", (" adults ", " Adults 15+ ", " hum "), {"label": "Adults 15+", "type": "hum"}), ("blank_population_type", ("adults", "Adults 15+", None), {"label": "Adults 15+", "type": None}),
+                           ("no_population_type_column", ("adults", "Adults 15+"), {"label": "Adults 15+", "type": None})):
+    CONTRACTS["data:ProjectData._read_pops#row_%s" % _tag] = dict(
+        schema=schema, fragment={"iter": "tables[0][1:]"}, make_env=_env_pop_row(_vals), call_stubs=_iss,
+        ensures=[("C16.the_population_is_listed_under_its_stripped_code_name_with_label_and_type", "self.pops['adults'] == %r and len(self.pops) == 2 and self.pops['old'] == {'label': 'Old', 'type': None}" % (_want,))], defined_props=["C16", "C18"])
+for _tag, _vals, _exc in (("code_name_of_one_character", ("a", "Adults"), "AssertionError"), ("label_of_one_character", ("adults", "A"), "AssertionError"), ("reserved_code_name", ("All", "Everybody"), "Exception"),
+                          ("code_name_missing", (None, "Adults"), "Exception")):
+    CONTRACTS["data:ProjectData._read_pops#row_%s" % _tag] = dict(
+        schema=schema, fragment={"iter": "tables[0][1:]"}, make_env=_env_pop_row(_vals), call_stubs=_iss, raises={_exc: "True"}, raises_props=["C18"], ensures=[], defined_props=["C16", "C18"])
+
+
+def _env_pop_write(it):
+    from pyvc.interp import PyObjV
+    from pyvc.core import Opaque
+    from pyvc import source
+
+    dm = source.load("data")
+    return {"self": PyObjV("ProjectData", dm, {"pops": {"adults": {"label": "Adults 15+", "type": "hum"}}, "_references": {}, "_formats": Opaque("formats")}), "name": "adults", "content": {"label": "Adults 15+", "type": "hum"},
+            "current_row": 0, "widths": {}, "sheet": PyObjV("Worksheet", dm, {"CELLS": {}, "name": "Population Definitions"})}
+
+
+def _rec(it, row, col, value=None, *a, **k):
+    it.stub_receiver.fields["CELLS"][(row, col)] = value
+
+
+CONTRACTS["data:ProjectData._write_pops#one_population"] = dict(
+    schema=schema, fragment={"iter": "self.pops.items()"}, make_env=_env_pop_write, call_stubs={"sheet.write": _rec, "update_widths": (lambda it, *a, **k: None), "xlrc": (lambda it, *a, **k: "$A$2")},
+    ensures=[("C16.code_name_label_and_type_go_into_the_three_columns_the_reader_reads", "sheet.CELLS[1, 0] == 'adults' and sheet.CELLS[1, 1] == 'Adults 15+' and sheet.CELLS[1, 2] == 'hum' and len(sheet.CELLS) == 3 and current_row == 1")],
+    defined_props=["C16"])
